@@ -200,8 +200,23 @@ inline bool stripeClaim(
   using Wide = typename StripeCursor<IntegerT>::WideT;
   auto& s = state.stripes[stripeIdx];
   const IntegerT chunkSize = state.chunkSize;
-  Wide prev = s.next.fetch_add(static_cast<Wide>(chunkSize), std::memory_order_relaxed);
-  if (prev >= s.end) {
+  // Advance the cursor with a compare-exchange that never moves it past the stripe end. An
+  // unconditional fetch_add keeps adding chunkSize on every failed claim of an exhausted stripe; for
+  // a 64-bit range ending near the type's maximum the cursor then wraps around and later claimers
+  // "succeed" with chunks far outside the range.
+  const Wide stripeEndWide = static_cast<Wide>(s.end);
+  Wide prev = s.next.load(std::memory_order_relaxed);
+  Wide claimedEnd = prev;
+  while (prev < stripeEndWide) {
+    claimedEnd = (stripeEndWide - prev > static_cast<Wide>(chunkSize))
+        ? prev + static_cast<Wide>(chunkSize)
+        : stripeEndWide;
+    if (s.next.compare_exchange_weak(
+            prev, claimedEnd, std::memory_order_relaxed, std::memory_order_relaxed)) {
+      break;
+    }
+  }
+  if (prev >= stripeEndWide) {
     // Stripe exhausted before this claim. Try to be the one to retire it.
     bool expected = false;
     if (s.retired.compare_exchange_strong(
@@ -220,8 +235,7 @@ inline bool stripeClaim(
     return false;
   }
   outBegin = static_cast<IntegerT>(prev);
-  Wide endWide = prev + static_cast<Wide>(chunkSize);
-  outEnd = static_cast<IntegerT>(endWide > s.end ? s.end : endWide);
+  outEnd = static_cast<IntegerT>(claimedEnd);
   return true;
 }
 
